@@ -455,10 +455,10 @@ func (u *unitCtx) blockItem(it Item) {
 		c.stmt(1, h.list[h.idx])
 	}
 	lo, hi := h.idx, h.idx
-	for lo > 0 && try(h.list[lo-1]) {
+	for !it.Solo && lo > 0 && try(h.list[lo-1]) {
 		lo--
 	}
-	for hi+1 < len(h.list) && try(h.list[hi+1]) {
+	for !it.Solo && hi+1 < len(h.list) && try(h.list[hi+1]) {
 		hi++
 	}
 	run := h.list[lo : hi+1]
@@ -693,9 +693,12 @@ func assignsTo(u *unitCtx, s ast.Stmt, anchor string) bool {
 	case *ast.IncDecStmt:
 		return norm(a.X) == anchor
 	case *ast.DeclStmt:
-		// `var ( … x = e … )` declares (and so assigns) x
+		// `var ( … x = e … )` declares x and assigns e to it (a declaration without an initial value is not an anchor)
 		if gd, ok := a.Decl.(*ast.GenDecl); ok && gd.Tok == token.VAR {
 			for _, sp := range gd.Specs {
+				if len(sp.(*ast.ValueSpec).Values) == 0 {
+					continue
+				}
 				for _, nm := range sp.(*ast.ValueSpec).Names {
 					if nm.Name == anchor {
 						return true
@@ -798,6 +801,8 @@ func translateUnit(l *loader, unit *Unit) (text string, err error) {
 			u.out = append(u.out, fmt.Sprintf("/-- Go: `const %s` (type %s; value computed by go/types) -/\ndef %s : %s := %s\n", it.Name, cn.Type(), leanIdent(it.Name), lt, v))
 		case "cond":
 			u.condItem(it)
+		case "arg", "slice", "loopcond":
+			u.exprItem(it)
 		case "methodset":
 			// every method of the named type must be listed (and exist): a new method is code that reaches the state
 			// without being translated, so the tie would silently cover less than it says
